@@ -275,7 +275,11 @@ func checkC11(p *Prog, r *Result, tier string) {
 					}
 					fn := FuncName(st.top().fn)
 					switch ev.Eff {
-					case EFsWObj, EFsRmObj, EFsRmTree, EFsRmOther, EFsRename:
+					case EFsRename:
+						if ev.Tags&TSchemaPath == 0 {
+							l.bad("C11.R4", fn, "no object file mutation: "+ev.Eff.String(), "Repair renames a file that is not the schema file", l.p.Pos(ev.Instr.Pos()), x, st, ev.Instr)
+						}
+					case EFsWObj, EFsRmObj, EFsRmTree, EFsRmOther:
 						l.bad("C11.R4", fn, "no object file mutation: "+ev.Eff.String(), "Repair reaches a mutation of object files", l.p.Pos(ev.Instr.Pos()), x, st, ev.Instr)
 					case EIdxWLive:
 						if st.onStackRecv(a.ObjIndex, func(f *ssa.Function) bool { return c.Of(f).Has(EErrUnique) }) {
